@@ -25,9 +25,9 @@ pub struct F {
 pub fn files() -> Vec<F> {
     vec![
         F { rel: "conftest.py", initially_scanned: true, versions: vec![
-            ("disk: star-imports h1, defines cx", "import pytest\nfrom h1 import *\n\n@pytest.fixture\ndef cx():\n    return 1\n"),
+            ("disk: star-imports h1, defines cx", "import pytest\nfrom h1 import *\n\n@pytest.fixture\ndef cx() -> int:\n    return 1\n"),
             ("removes its last definition", "import pytest\nfrom h1 import *\n"),
-            ("only the import line changes (h1 -> nothing)", "import pytest\nimport os\n\n@pytest.fixture\ndef cx():\n    return 1\n"),
+            ("only the import line changes (h1 -> nothing)", "import pytest\nimport os\n\n@pytest.fixture\ndef cx() -> int:\n    return 1\n"),
         ] },
         F { rel: "h1.py", initially_scanned: true, versions: vec![
             ("disk: star-imports h2, defines h1x", "import pytest\nfrom h2 import *\n\n@pytest.fixture\ndef h1x():\n    return 1\n"),
@@ -42,6 +42,11 @@ pub fn files() -> Vec<F> {
         ] },
         F { rel: "sub/test_t.py", initially_scanned: true, versions: vec![
             ("disk: uses cx sx h1x h2x", "def test_t(cx, sx, h1x, h2x):\n    pass\n"),
+        ] },
+        // a document with an annotated and an unannotated parameter (what the handlers that read the
+        // document's text make of it must not depend on whether that text is still cached)
+        F { rel: "sub/test_ann.py", initially_scanned: true, versions: vec![
+            ("disk: uses cx annotated, cx unannotated in a second test", "def test_ann(cx: int):\n    pass\n\ndef test_plain(cx):\n    pass\n"),
         ] },
     ]
 }
@@ -178,7 +183,7 @@ pub enum Act {
     Query(u8),
 }
 
-const NQ: u8 = 7;
+const NQ: u8 = 8;
 
 fn run_query(db: &FixtureDatabase, root: &Path, q: u8) -> String {
     let p = |r: &str| root.join(r);
@@ -213,6 +218,14 @@ fn run_query(db: &FixtureDatabase, root: &Path, q: u8) -> String {
                 v.push(format!("{} <- {:?}", def_key(&d, &rootS), r));
             }
             format!("references = {:?}", v)
+        }
+        7 => {
+            // handlers that look at the document's text: inlay hints (is the parameter annotated already?)
+            // and document symbols (where does the function's last line end?)
+            let lsp = crate::lsp::Lsp::new(Arc::new(crate::db::deep_clone(db)), Some(root));
+            let hints: Vec<String> = lsp.inlay_hint(&p("sub/test_ann.py"), crate::lsp::whole_doc_range()).ok().flatten().unwrap_or_default().iter().map(|h| format!("{}:{} {:?}", h.position.line, h.position.character, h.label)).collect();
+            let syms = |f: &str| -> Vec<String> { lsp.document_symbol(&p(f)).ok().flatten().unwrap_or_default().iter().map(|s| format!("{} {:?}", s.name, s.range)).collect() };
+            format!("inlay(sub/test_ann.py) = {:?}, symbols(conftest.py) = {:?}, symbols(sub/conftest.py) = {:?}", hints, syms("conftest.py"), syms("sub/conftest.py"))
         }
         _ => {
             let g = db.find_fixture_definition(&p("sub/test_t.py"), 0, 11).map(|d| def_key(&d, &rootS));
@@ -550,9 +563,96 @@ fn explore(rep: &'static Report, fs: Vec<F>, depth: u8, nq: u8, query: fn(&Fixtu
     (v, model)
 }
 
+/// Histories with a SAVE action (the models above keep the disk fixed): a conftest.py that is edited —
+/// also into a text that does not parse —, saved, closed and edited again. Every history up to the
+/// depth runs in a scratch directory of its own; after every step three queries are compared between
+/// the warm database and a cold twin that received only the analyses.
+fn saved_documents(rep: &'static Report, depth: usize) -> Value {
+    const V: [(&str, &str); 3] = [
+        ("star-imports h1, defines cx", "import pytest\nfrom h1 import *\n\n@pytest.fixture\ndef cx():\n    return 1\n"),
+        ("does not parse", "import pytest\nfrom h1 import *\n\n@pytest.fixture\ndef cx(:\n"),
+        ("valid, imports nothing", "import pytest\n\n@pytest.fixture\ndef cx():\n    return 1\n"),
+    ];
+    const H1: &str = "import pytest\n\n@pytest.fixture\ndef h1x():\n    return 1\n";
+    const TEST: &str = "def test_t(cx, h1x):\n    pass\n";
+    #[derive(Clone, Copy, Debug, PartialEq)]
+    enum A { Change(usize), Save, Close }
+    let alphabet = [A::Change(0), A::Change(1), A::Change(2), A::Save, A::Close];
+    let mut hists: Vec<Vec<A>> = vec![vec![]];
+    for _ in 0..depth {
+        hists = hists.iter().flat_map(|h| alphabet.iter().map(move |a| { let mut x = h.clone(); x.push(*a); x })).collect();
+    }
+    let compared = AtomicU64::new(0);
+    let executed = AtomicU64::new(0);
+    crate::report::par_batches(&hists, 16, |_i, h| {
+        let sc = Scratch::new("c07sv");
+        let root = sc.path().to_path_buf();
+        write_file(&root, "conftest.py", V[0].1);
+        write_file(&root, "h1.py", H1);
+        write_file(&root, "test_t.py", TEST);
+        let (warm, cold) = (FixtureDatabase::new(), FixtureDatabase::new());
+        for db in [&warm, &cold] {
+            db.analyze_file(root.join("h1.py"), H1);
+            db.analyze_file(root.join("conftest.py"), V[0].1);
+            db.analyze_file(root.join("test_t.py"), TEST);
+        }
+        let (mut buffer, mut disk, mut open) = (0usize, 0usize, true);
+        let mut said: Vec<String> = Vec::new();
+        for a in h {
+            match a {
+                A::Change(v) => {
+                    warm.analyze_file(root.join("conftest.py"), V[*v].1);
+                    cold.analyze_file(root.join("conftest.py"), V[*v].1);
+                    buffer = *v;
+                    open = true;
+                    said.push(format!("didOpen/didChange conftest.py := {}", V[*v].0));
+                }
+                A::Save => {
+                    if !open { return; }
+                    write_file(&root, "conftest.py", V[buffer].1);
+                    disk = buffer;
+                    said.push("save conftest.py".into());
+                }
+                A::Close => {
+                    // only an unmodified document (buffer == file) is closed without an analysis
+                    if !open || buffer != disk { return; }
+                    warm.cleanup_file_cache(&root.join("conftest.py"));
+                    open = false;
+                    said.push("didClose (or eviction of) conftest.py".into());
+                }
+            }
+            executed.fetch_add(1, Ordering::Relaxed);
+            let rs = root.to_string_lossy().to_string();
+            let ask = |db: &FixtureDatabase| -> Vec<String> {
+                let c = deep_clone(db);
+                let t = root.join("test_t.py");
+                vec![
+                    format!("available(test_t.py) = {:?}", c.get_available_fixtures(&t).iter().map(|d| def_key(d, &rs)).collect::<Vec<_>>()),
+                    format!("goto(cx) = {:?}, goto(h1x) = {:?}", deep_clone(db).find_fixture_definition(&t, 0, 11).map(|d| def_key(&d, &rs)), deep_clone(db).find_fixture_definition(&t, 0, 15).map(|d| def_key(&d, &rs))),
+                    format!("imported(h1x in conftest.py) = {}", deep_clone(db).is_fixture_imported_in_file("h1x", &root.join("conftest.py"))),
+                ]
+            };
+            let (w, c) = (ask(&warm), ask(&cold));
+            compared.fetch_add(w.len() as u64, Ordering::Relaxed);
+            for (x, y) in w.iter().zip(&c) {
+                if x != y {
+                    let fp = format!("saved documents: warm answer differs from cold twin: {} after {}", x.split(" = ").next().unwrap_or(""), said.last().map(|s| s.split(" := ").next().unwrap_or("").to_string()).unwrap_or_default());
+                    if !rep.count_if_seen(&fp) {
+                        rep.violation(&fp, &format!("history {:?}: warm `{}` vs cold `{}`", said, x, y), || json!({"history": said, "versions": V.iter().map(|v| json!({"name": v.0, "text": v.1})).collect::<Vec<_>>()}));
+                    }
+                }
+            }
+        }
+    });
+    json!({"histories": hists.len(), "depth": depth, "steps_executed": executed.load(Ordering::Relaxed), "query_comparisons": compared.load(Ordering::Relaxed),
+        "alphabet": ["didChange conftest.py := valid with star import", "didChange := text that does not parse", "didChange := valid without imports", "save (buffer written to disk)", "didClose of the unmodified document"]})
+}
+
 pub fn run(rep: &'static Report) {
     let thorough = is_thorough();
     let depth: u8 = if thorough { 4 } else { 3 };
+    let saved = saved_documents(rep, if thorough { 6 } else { 5 });
+    rep.set("histories_with_save", saved);
     let (v1, model) = explore(rep, files(), depth, NQ, run_query);
     let (v2, _m2) = explore(rep, diamond_files(), depth, NQ_DIAMOND, run_query_diamond);
     let (v3, _m3) = explore(rep, cycle_files(), depth, NQ_CYCLE, run_query_cycle);
@@ -585,7 +685,7 @@ pub fn run(rep: &'static Report) {
     rep.set("models", json!([v1, v2, v3, v4]));
     rep.set("exhaustive", true);
     rep.sample(json!({"history": model.hist_json(&[Act::Query(0), Act::Change(0, 1), Act::Query(0)])}));
-    rep.set("rule", "explicit-state BFS (stateright) over all histories up to the stated depth of: didOpen/didChange with each version of each file (incl. an edit that removes a conftest's last definition, one that only changes its import line, one adding a fixture, a helper edit; helper modules import each other), the scan worker reaching a not-yet-analysed conftest through the no-cleanup path, didClose of an unmodified document (= eviction of that path, bound by the eviction conformance test), and 7 query kinds (available fixtures of 2 files, cycles, imported-fixture lookups across the mutually importing modules, go-to-definition through the import branch, references of every definition, resolution + unused list); state = file versions + closed flags + fingerprint of every cache's contents and freshness + depth, carrying the real warm FixtureDatabase; after EVERY transition all 7 queries are evaluated on a copy of the warm database and on a cold twin that received only the analyses, and must agree. A second model does the same over a workspace in which two nested conftest.py files reach one module through different star-import routes (diamond over a chain two modules deep; 6 query kinds asked from below either conftest), and a third one over an import cycle with two entry points whose closing edges are star imports or pytest_plugins declarations depending on the file version, and a fourth one in which a module and a package of the same name exist side by side");
+    rep.set("rule", "explicit-state BFS (stateright) over all histories up to the stated depth of: didOpen/didChange with each version of each file (incl. an edit that removes a conftest's last definition, one that only changes its import line, one adding a fixture, a helper edit; helper modules import each other), the scan worker reaching a not-yet-analysed conftest through the no-cleanup path, didClose of an unmodified document (= eviction of that path, bound by the eviction conformance test), and 8 query kinds (inlay hints and document symbols of documents whose text may no longer be cached, available fixtures of 2 files, cycles, imported-fixture lookups across the mutually importing modules, go-to-definition through the import branch, references of every definition, resolution + unused list); state = file versions + closed flags + fingerprint of every cache's contents and freshness + depth, carrying the real warm FixtureDatabase; after EVERY transition all 7 queries are evaluated on a copy of the warm database and on a cold twin that received only the analyses, and must agree. A second model does the same over a workspace in which two nested conftest.py files reach one module through different star-import routes (diamond over a chain two modules deep; 6 query kinds asked from below either conftest), and a third one over an import cycle with two entry points whose closing edges are star imports or pytest_plugins declarations depending on the file version, and a fourth one in which a module and a package of the same name exist side by side");
     rep.assume("closing is only offered for documents whose buffer equals the on-disk content (the statement's 'unmodified document'); eviction of a set of paths has the effect of closing each of them (checked once per run by really crossing MAX_FILE_CACHE_SIZE)");
 }
 
